@@ -211,6 +211,10 @@ class Parameter(Accessible):
                 else:
                     raise ProgrammingError(
                         'datatype MUST be derived from class DataType!')
+            if any(k not in self.propertyDict for k in kwds):
+                # datatype properties given as keywords must not be applied to the object
+                # handed over: it might be used in other declarations as well
+                datatype = datatype.copy()
             self.datatype = datatype
             if 'default' in kwds:
                 self.default = datatype(kwds['default'])
